@@ -14,8 +14,8 @@ EXTENDS Circuit, Proto
 
 PX(u, e) == Ents(u)[e].position.x.f2 * 50          \* hundredths of a tile
 PY(u, e) == Ents(u)[e].position.y.f2 * 50
-Name(u, e) == Ents(u)[e].name
-PR(u, e) == ProtoT[Name(u, e)]
+EName(u, e) == Ents(u)[e].name
+PR(u, e) == ProtoT[EName(u, e)]
 Dir(u, e) == Get(Ents(u)[e], "direction", 0)
 Sideways(u, e) == Dir(u, e) \in {4, 12}
 \* collision box, rotated for east / west facing entities
@@ -23,13 +23,13 @@ BoxOf(u, e) == LET p == PR(u, e) IN
    IF Sideways(u, e) THEN [x1 |-> PX(u, e) + p.cy1, x2 |-> PX(u, e) + p.cy2, y1 |-> PY(u, e) + p.cx1, y2 |-> PY(u, e) + p.cx2]
    ELSE [x1 |-> PX(u, e) + p.cx1, x2 |-> PX(u, e) + p.cx2, y1 |-> PY(u, e) + p.cy1, y2 |-> PY(u, e) + p.cy2]
 Overlap(a, b) == a.x1 < b.x2 /\ b.x1 < a.x2 /\ a.y1 < b.y2 /\ b.y1 < a.y2
-UnknownProtos(u) == {Name(u, e) : e \in {e \in Ids(u) : ~KnownProto(Name(u, e))}}
-Overlaps(u) == {<<a, b>> \in Ids(u) \X Ids(u) : a < b /\ KnownProto(Name(u, a)) /\ KnownProto(Name(u, b)) /\ Overlap(BoxOf(u, a), BoxOf(u, b))}
+UnknownProtos(u) == {EName(u, e) : e \in {e \in Ids(u) : ~KnownProto(EName(u, e))}}
+Overlaps(u) == {<<a, b>> \in Ids(u) \X Ids(u) : a < b /\ KnownProto(EName(u, a)) /\ KnownProto(EName(u, b)) /\ Overlap(BoxOf(u, a), BoxOf(u, b))}
 
 \* connectors an entity has: combinators 1..4, poles 1,2 (circuit) + 5 (copper), power switch 1,2,5,6, everything else 1,2
 ConnsOf(u, e) == CASE KindT[u][e] \in {"A", "D"} -> {1, 2, 3, 4}
                    [] KindT[u][e] = "P" -> {1, 2, 5}
-                   [] Name(u, e) = "power-switch" -> {1, 2, 5, 6}
+                   [] EName(u, e) = "power-switch" -> {1, 2, 5, 6}
                    [] OTHER -> {1, 2}
 Colour(c) == CASE c \in {1, 3} -> "red" [] c \in {2, 4} -> "green" [] OTHER -> "copper"
 WireList(u) == BPs[u].wires
@@ -42,12 +42,12 @@ Dist2(u, a, b) == LET dx == Ents(u)[a].position.x.f2 - Ents(u)[b].position.x.f2
                       dy == Ents(u)[a].position.y.f2 - Ents(u)[b].position.y.f2 IN dx * dx + dy * dy
 TooLong(u) == {i \in DOMAIN WireList(u) \ BadEnds(u) : LET w == WireList(u)[i]
                       r == Min({ReachOf(u, w[1], w[2]), ReachOf(u, w[3], w[4])}) \div 50       \* in half tiles
-                  IN KnownProto(Name(u, w[1])) /\ KnownProto(Name(u, w[3])) /\ w[1] # w[3] /\ Dist2(u, w[1], w[3]) > r * r}
+                  IN KnownProto(EName(u, w[1])) /\ KnownProto(EName(u, w[3])) /\ w[1] # w[3] /\ Dist2(u, w[1], w[3]) > r * r}
 
 (* ------------------------------- power ---------------------------------- *)
 Poles(u) == {e \in Ids(u) : KindT[u][e] = "P"}
-PolesOf(u, t) == {e \in Poles(u) : Name(u, e) = t}
-Consumers(u) == {e \in Ids(u) : KnownProto(Name(u, e)) /\ PR(u, e).electric}
+PolesOf(u, t) == {e \in Poles(u) : EName(u, e) = t}
+Consumers(u) == {e \in Ids(u) : KnownProto(EName(u, e)) /\ PR(u, e).electric}
 \* tile footprint of an entity and supply square of a pole
 TileBox(u, e) == LET p == PR(u, e)  w == IF Sideways(u, e) THEN p.h ELSE p.w  h == IF Sideways(u, e) THEN p.w ELSE p.h IN
    [x1 |-> PX(u, e) - 50 * w, x2 |-> PX(u, e) + 50 * w, y1 |-> PY(u, e) - 50 * h, y2 |-> PY(u, e) + 50 * h]
